@@ -36,10 +36,771 @@ Proof.
     try (destruct lg; reflexivity); try (destruct fl; reflexivity).
 Qed.
 
-(* ------------------------------------------------------------ one-step facts of the glue *)
+(* ------------------------------------------------------------ rib operations *)
 
-Lemma filter_In_keep : forall (A : Type) (p : A -> bool) l x, In x l -> p x = true -> In x (filter p l).
-Proof. intros A p l x Hi Hp. apply filter_In. split; assumption. Qed.
+Lemma filter_all : forall (A : Type) (p : A -> bool) l, (forall x, In x l -> p x = true) -> filter p l = l.
+Proof.
+  intros A p l H. induction l as [|x r IH]; [reflexivity|]. cbn [filter].
+  rewrite (H x (or_introl eq_refl)). f_equal. apply IH. intros y Hy. apply H. right; exact Hy.
+Qed.
+
+Lemma drop_nil : forall rib, rib_drop rib [] = rib.
+Proof. intros rib. apply filter_all. intros; reflexivity. Qed.
+Lemma drop_stale_nil : forall rib, rib_drop_stale rib [] = rib.
+Proof. intros rib. apply filter_all. intros; reflexivity. Qed.
+Lemma drop_llgr_stale_nil : forall rib, rib_drop_llgr_stale rib [] = rib.
+Proof. intros rib. apply filter_all. intros; reflexivity. Qed.
+
+Lemma in_drop : forall rib F r, In r (rib_drop rib F) <-> In r rib /\ mem (r_fam r) F = false.
+Proof.
+  intros rib F r. unfold rib_drop, in_fams. rewrite filter_In. split; intros [H1 H2]; (split; [exact H1|]);
+    destruct (mem (r_fam r) F); cbn in *; congruence.
+Qed.
+
+Lemma in_drop_stale : forall rib F r,
+    In r (rib_drop_stale rib F) <-> In r rib /\ (mem (r_fam r) F && r_stale r) = false.
+Proof.
+  intros rib F r. unfold rib_drop_stale, in_fams. rewrite filter_In. split; intros [H1 H2]; (split; [exact H1|]);
+    destruct (mem (r_fam r) F && r_stale r); cbn in *; congruence.
+Qed.
+
+Lemma in_drop_llgr_stale : forall rib F r,
+    In r (rib_drop_llgr_stale rib F) <-> In r rib /\ (mem (r_fam r) F && r_llgr r) = false.
+Proof.
+  intros rib F r. unfold rib_drop_llgr_stale, in_fams. rewrite filter_In. split; intros [H1 H2]; (split; [exact H1|]);
+    destruct (mem (r_fam r) F && r_llgr r); cbn in *; congruence.
+Qed.
+
+Lemma in_restale : forall rib F r,
+    In r (rib_restale rib F) ->
+    exists q, In q rib /\ r_fam r = r_fam q /\ r_sess r = r_sess q /\ r_id r = r_id q /\ r_llgr r = r_llgr q
+              /\ (mem (r_fam q) F = true -> r_stale r = true).
+Proof.
+  intros rib F r Hin. unfold rib_restale in Hin. apply in_map_iff in Hin. destruct Hin as [q [Hq Hin]].
+  exists q. unfold in_fams in Hq. destruct (mem (r_fam q) F); subst r; cbn; repeat split; try reflexivity; try assumption.
+  intros; discriminate.
+Qed.
+
+Lemma in_mark_llgr : forall rib F r,
+    In r (rib_mark_llgr rib F) ->
+    exists q, In q rib /\ r_fam r = r_fam q /\ r_sess r = r_sess q /\ r_stale r = r_stale q
+              /\ (mem (r_fam q) F = true -> r_llgr r = true /\ r_no_llgr r = false).
+Proof.
+  intros rib F r Hin. unfold rib_mark_llgr in Hin. apply filter_In in Hin. destruct Hin as [Hin Hn].
+  apply in_map_iff in Hin. destruct Hin as [q [Hq Hin]].
+  exists q. unfold in_fams in *. destruct (mem (r_fam q) F) eqn:E; subst r; cbn in *; repeat split; try reflexivity; try assumption.
+  - rewrite E in Hn. cbn in Hn. destruct (r_no_llgr q); [discriminate | reflexivity].
+  - intros; discriminate.
+  - intros; discriminate.
+Qed.
+
+Lemma in_insert : forall rib r q,
+    In q (rib_insert rib r) -> q = r \/ In q rib.
+Proof.
+  intros rib r q H. unfold rib_insert in H. apply in_app_or in H. destruct H as [H|[H|[]]].
+  - right. apply filter_In in H. tauto.
+  - left. symmetry. exact H.
+Qed.
+
+Lemma mem_nil_list : forall (l : list N), (forall f, mem f l = false) -> l = [].
+Proof.
+  intros [|x r] H; [reflexivity|]. specialize (H x). unfold mem in H. cbn in H. rewrite N.eqb_refl in H. discriminate.
+Qed.
+
+Lemma mem_app : forall f a b, mem f (a ++ b) = mem f a || mem f b.
+Proof. intros. unfold mem. apply existsb_app. Qed.
+
+Lemma mem_filter : forall f p l, mem f (filter p l) = mem f l && p f.
+Proof.
+  intros f p l. destruct (mem f (filter p l)) eqn:E.
+  - apply mem_In in E. apply filter_In in E. destruct E as [Hi Hp]. apply mem_In in Hi. rewrite Hi, Hp. reflexivity.
+  - apply mem_false_In in E. destruct (mem f l) eqn:Hl; [|reflexivity]. destruct (p f) eqn:Hp; [|reflexivity].
+    exfalso. apply E. apply filter_In. split; [apply mem_In; assumption | assumption].
+Qed.
+
+Lemma mem_cons : forall f x r, mem f (x :: r) = (f =? x) || mem f r.
+Proof. reflexivity. Qed.
+
+(* the stale-family list built at a GR drop: the GR families plus the LLGR families *)
+Lemma mem_stale_fold : forall ll (acc : list fam) f,
+    mem f (fold_left (fun acc f => if mem f acc then acc else acc ++ [f]) ll acc) = mem f acc || mem f ll.
+Proof.
+  induction ll as [|x r IH]; intros acc f; cbn [fold_left].
+  - change (mem f []) with false. rewrite orb_false_r. reflexivity.
+  - rewrite IH, mem_cons. destruct (mem x acc) eqn:E.
+    + destruct (f =? x) eqn:Ef; [|reflexivity]. apply N.eqb_eq in Ef; subst. rewrite E. reflexivity.
+    + rewrite mem_app, mem_cons. change (mem f []) with false. rewrite orb_false_r, orb_assoc. reflexivity.
+Qed.
+
+(* ------------------------------------------------------------ the invariant *)
+
+(* facts that hold in every phase *)
+Record ginv (h : hstate) : Prop := {
+  gi_gen : forall r, In r (h_rib h) -> r_sess r <= h_gen h;
+  gi_sess : forall s, h_sess h = Some s ->
+      s_gen s = h_gen h /\ h_rtimer h = false /\ h_ltimers h = []
+      /\ subset_b (fams_of_gr (s_gr s)) (s_fams s) = true
+      /\ subset_b (fams_of_llgr (s_llgr s)) (s_fams s) = true
+      /\ (forall r, In r (h_rib h) -> r_sess r = s_gen s ->
+            r_stale r = false /\ r_llgr r = false /\ mem (r_fam r) (s_fams s) = true)
+}.
+
+(* facts per phase of GrState *)
+Definition pinv (h : hstate) : Prop :=
+  match h_gr h with
+  | GIdle =>
+      h_rtimer h = false /\ h_ltimers h = [] /\
+      forall r, In r (h_rib h) -> retained h r = false
+  | GPeerReconnected pending fl =>
+      h_rtimer h = false /\ h_ltimers h = [] /\
+      forall r, In r (h_rib h) -> retained h r = true ->
+                mem (r_fam r) pending = true
+                /\ (exists s, h_sess h = Some s /\ mem (r_fam r) (fams_of_gr (s_gr s)) = true)
+                /\ (if fl then r_llgr r = true else r_stale r = true)
+  | GPeerRestarting stale llgr =>
+      h_sess h = None /\ h_rtimer h = true /\ h_ltimers h = [] /\
+      forall r, In r (h_rib h) -> mem (r_fam r) stale = true /\ r_stale r = true
+  | GLlgrStaling rem =>
+      h_sess h = None /\ h_rtimer h = false /\ (forall f, mem f (h_ltimers h) = mem f rem) /\
+      forall r, In r (h_rib h) -> mem (r_fam r) rem = true /\ r_llgr r = true
+  end.
+
+Definition inv (h : hstate) : Prop := ginv h /\ pinv h.
+
+Lemma inv_stale_ok : forall h, inv h -> stale_ok h = true.
+Proof.
+  intros h [_ Hp]. unfold stale_ok. apply forallb_forall. intros r Hin. unfold pinv in Hp.
+  destruct (retained h r) eqn:Er; [cbn [negb orb] | reflexivity].
+  unfold covered, eor_awaited. destruct (h_gr h) as [|stale llgr|rem|pending fl] eqn:Eg.
+  - destruct Hp as [_ [_ Hr]]. rewrite (Hr r Hin) in Er. discriminate.
+  - destruct Hp as [_ [Hrt _]]. rewrite Hrt. reflexivity.
+  - destruct Hp as [_ [_ [Hlt Hr]]]. rewrite Hlt. destruct (Hr r Hin) as [Hm _]. rewrite Hm. rewrite orb_true_r. reflexivity.
+  - destruct Hp as [_ [_ Hr]]. destruct (Hr r Hin Er) as [Hm [[s [Hs _]] _]]. rewrite Hs, Hm. apply orb_true_r.
+Qed.
+
+Lemma inv_h0 : inv h0.
+Proof.
+  split.
+  - constructor; cbn; [intros r [] | intros s H; discriminate].
+  - cbn. repeat split. intros r [].
+Qed.
+
+(* with no session every route is retained *)
+Lemma retained_no_session : forall h r, h_sess h = None -> retained h r = true.
+Proof. intros h r H. unfold retained. rewrite H. reflexivity. Qed.
+
+(* in phases that allow no retained route, no session means no route at all *)
+Lemma idle_no_session_empty : forall h,
+    pinv h -> h_gr h = GIdle -> h_sess h = None -> h_rib h = [].
+Proof.
+  intros h Hp Hg Hs. unfold pinv in Hp. rewrite Hg in Hp. destruct Hp as [_ [_ Hr]].
+  destruct (h_rib h) as [|r rest]; [reflexivity|]. specialize (Hr r (or_introl eq_refl)).
+  rewrite (retained_no_session h r Hs) in Hr. discriminate.
+Qed.
+
+Lemma reconnected_no_session_empty : forall h p fl,
+    pinv h -> h_gr h = GPeerReconnected p fl -> h_sess h = None -> h_rib h = [].
+Proof.
+  intros h p fl Hp Hg Hs. unfold pinv in Hp. rewrite Hg in Hp. destruct Hp as [_ [_ Hr]].
+  destruct (h_rib h) as [|r rest]; [reflexivity|].
+  destruct (Hr r (or_introl eq_refl) (retained_no_session h r Hs)) as [_ [[s [Hs' _]] _]]. congruence.
+Qed.
+
+(* ------------------------------------------------------------ preservation, event by event *)
+
+Ltac open_inv h Hinv :=
+  let Hgen := fresh "Hgen" in let Hsess := fresh "Hsess" in let Hp := fresh "Hp" in
+  destruct Hinv as [[Hgen Hsess] Hp]; unfold pinv in Hp;
+  destruct h as [g rt lt rib S gen ad]; cbn [h_gr h_rtimer h_ltimers h_rib h_sess h_gen h_admin_down] in *.
+
+Lemma inv_admin : forall h b, inv h -> inv (h_step h (HSetAdminDown b)).
+Proof.
+  intros h b Hinv. open_inv h Hinv. cbn [h_step h_gr h_rtimer h_ltimers h_rib h_sess h_gen].
+  split; [constructor; assumption | exact Hp].
+Qed.
+
+Lemma inv_fail : forall h, inv h -> inv (h_step h HFailedConnect).
+Proof.
+  intros h Hinv. open_inv h Hinv. cbn [h_step apply_disconnect upd_h h_gr h_rtimer h_ltimers h_rib h_sess h_gen].
+  split.
+  - constructor; cbn [h_rib h_gen h_sess h_rtimer h_ltimers]; [assumption|].
+    intros s Hs. destruct (Hsess s Hs) as [H1 [H2 [H3 [H4 [H5 H6]]]]]. subst rt.
+    refine (conj H1 (conj _ (conj H3 (conj H4 (conj H5 H6))))). destruct (is_peer_restarting g); reflexivity.
+  - unfold pinv. cbn [h_gr h_rtimer h_ltimers h_rib h_sess].
+    destruct g as [|stale llgr|rem|p fl]; cbn [is_peer_restarting]; try exact Hp.
+    destruct Hp as [H1 H2]. split; [reflexivity | exact H2].
+Qed.
+
+Lemma inv_announce : forall h f id nl lc, inv h -> inv (h_step h (HAnnounce f id nl lc)).
+Proof.
+  intros h f id nl lc Hinv. cbn [h_step]. destruct (h_sess h) as [s|] eqn:Es; [|exact Hinv].
+  destruct (mem f (s_fams s)) eqn:Ef; [|exact Hinv].
+  open_inv h Hinv. subst S. cbn [upd_h].
+  destruct (Hsess s eq_refl) as [Hg [Hrt [Hlt [Hsg [Hsl Hcur]]]]].
+  set (nr := {| r_fam := f; r_id := id; r_sess := s_gen s; r_stale := false; r_llgr := false;
+                r_no_llgr := nl; r_llgr_comm := lc |}).
+  assert (retained {| h_gr := g; h_rtimer := rt; h_ltimers := lt; h_rib := rib_insert rib nr;
+                      h_sess := Some s; h_gen := gen; h_admin_down := ad |} nr = false) as Hnr
+      by (unfold retained; cbn; rewrite N.eqb_refl; reflexivity).
+  split.
+  - constructor; cbn [h_rib h_gen h_sess h_rtimer h_ltimers].
+    + intros r Hin. apply in_insert in Hin. destruct Hin as [->|Hin]; [cbn; lia | apply Hgen; exact Hin].
+    + intros s' Hs'. inversion Hs'; subst s'. repeat split; try assumption;
+        apply in_insert in H; destruct H as [->|Hin]; try reflexivity; try exact Ef; apply (Hcur r Hin H0).
+  - unfold pinv. cbn [h_gr h_rtimer h_ltimers h_rib h_sess].
+    destruct g as [|stale llgr|rem|p fl].
+    + destruct Hp as [H1 [H2 H3]]. repeat split; try assumption. intros r Hin.
+      apply in_insert in Hin. destruct Hin as [->|Hin]; [exact Hnr|].
+      specialize (H3 r Hin). unfold retained in *. cbn in *. exact H3.
+    + destruct Hp as [Hn _]. discriminate.
+    + destruct Hp as [Hn _]. discriminate.
+    + destruct Hp as [H1 [H2 H3]]. split; [exact H1|]. split; [exact H2|]. intros r Hin Hret.
+      apply in_insert in Hin. destruct Hin as [->|Hin].
+      * exfalso. unfold retained in Hret. cbn in Hret. rewrite N.eqb_refl in Hret. discriminate.
+      * apply (H3 r Hin). unfold retained in *. cbn in *. exact Hret.
+Qed.
+
+Lemma retained_indep : forall g rt lt rib S gen ad g' rt' lt' rib' ad' r,
+    retained {| h_gr := g; h_rtimer := rt; h_ltimers := lt; h_rib := rib; h_sess := S; h_gen := gen; h_admin_down := ad |} r =
+    retained {| h_gr := g'; h_rtimer := rt'; h_ltimers := lt'; h_rib := rib'; h_sess := S; h_gen := gen; h_admin_down := ad' |} r.
+Proof. reflexivity. Qed.
+
+Lemma inv_eor : forall h f, inv h -> inv (h_step h (HEor f)).
+Proof.
+  intros h f Hinv. cbn [h_step]. destruct (h_sess h) as [s|] eqn:Es; [|exact Hinv].
+  destruct (s_gr s) as [gg|] eqn:Egr; [|exact Hinv].
+  open_inv h Hinv. subst S.
+  destruct (Hsess s eq_refl) as [Hg [Hrt [Hlt [Hsg [Hsl Hcur]]]]].
+  destruct g as [|stale llgr|rem|p fl].
+  - (* Idle: nothing happens *)
+    cbn [gr_step upd_h delete_fams delete_llgr_fams flat_map]. rewrite drop_stale_nil, drop_llgr_stale_nil.
+    split; [constructor; assumption | exact Hp].
+  - destruct Hp as [Hn _]. discriminate.
+  - destruct Hp as [Hn _]. discriminate.
+  - destruct Hp as [H1 [H2 H3]].
+    (* the routes that survive the purge *)
+    set (rib' := if fl then rib_drop_llgr_stale (rib_drop_stale rib []) [f]
+                 else rib_drop_llgr_stale (rib_drop_stale rib [f]) []).
+    assert (forall r, In r rib' -> In r rib /\ (r_fam r = f -> if fl then r_llgr r = false else r_stale r = false)) as Hsub.
+    { intros r Hin. subst rib'. destruct fl.
+      - rewrite drop_stale_nil in Hin. apply in_drop_llgr_stale in Hin. destruct Hin as [Hin Hn]. split; [exact Hin|].
+        intros Hf. rewrite Hf, mem_cons, N.eqb_refl in Hn. cbn in Hn. exact Hn.
+      - rewrite drop_llgr_stale_nil in Hin. apply in_drop_stale in Hin. destruct Hin as [Hin Hn]. split; [exact Hin|].
+        intros Hf. rewrite Hf, mem_cons, N.eqb_refl in Hn. cbn in Hn. exact Hn. }
+    assert (h_step_eq : 
+               (let '(g0, outs) := gr_step (GPeerReconnected p fl) (GEorReceived f) in
+                upd_h {| h_gr := GPeerReconnected p fl; h_rtimer := rt; h_ltimers := lt; h_rib := rib;
+                         h_sess := Some s; h_gen := gen; h_admin_down := ad |} g0 rt lt
+                      (rib_drop_llgr_stale (rib_drop_stale rib (delete_fams outs)) (delete_llgr_fams outs))) =
+               {| h_gr := match fremove f p with [] => GIdle | _ => GPeerReconnected (fremove f p) fl end;
+                  h_rtimer := rt; h_ltimers := lt; h_rib := rib'; h_sess := Some s; h_gen := gen; h_admin_down := ad |}).
+    { subst rib'. destruct fl; cbn; destruct (fremove f p); reflexivity. }
+    rewrite h_step_eq. clear h_step_eq.
+    split.
+    + constructor; cbn [h_rib h_gen h_sess h_rtimer h_ltimers].
+      * intros r Hin. apply Hgen. apply Hsub. exact Hin.
+      * intros s' Hs'. inversion Hs'; subst s'. repeat split; try assumption; apply (Hcur r); try assumption; apply Hsub; assumption.
+    + assert (forall r, In r rib' ->
+                retained {| h_gr := GIdle; h_rtimer := rt; h_ltimers := lt; h_rib := rib'; h_sess := Some s;
+                            h_gen := gen; h_admin_down := ad |} r = true ->
+                mem (r_fam r) (fremove f p) = true
+                /\ (exists s0, Some s = Some s0 /\ mem (r_fam r) (fams_of_gr (s_gr s0)) = true)
+                /\ (if fl then r_llgr r = true else r_stale r = true)) as Hkey.
+      { intros r Hin Hret. destruct (Hsub r Hin) as [Hin0 Hf].
+        destruct (H3 r Hin0 Hret) as [Ha [Hb Hc]]. split; [|split; assumption].
+        rewrite mem_fremove, Ha. cbn [andb]. destruct (r_fam r =? f) eqn:E; [|reflexivity].
+        apply N.eqb_eq in E. specialize (Hf E). destruct fl; congruence. }
+      unfold pinv. cbn [h_gr h_rtimer h_ltimers h_rib h_sess].
+      destruct (fremove f p) as [|x xs] eqn:Ep.
+      * split; [exact H1|]. split; [exact H2|]. intros r Hin.
+        match goal with |- ?X = false => destruct X eqn:Er; [|reflexivity] end.
+        destruct (Hkey r Hin Er) as [Hm _]. discriminate.
+      * split; [exact H1|]. split; [exact H2|]. intros r Hin Hret. apply (Hkey r Hin). exact Hret.
+Qed.
+
+Lemma delete_fams_expired : forall e lp,
+    delete_fams (match e with [] => [] | _ :: _ => [GDeleteStaleRoutes e] end ++ [GStartLlgrTimers lp]) = e.
+Proof. intros [|x r] lp; cbn; [reflexivity | rewrite app_nil_r; reflexivity]. Qed.
+
+Lemma start_llgr_expired : forall e lp,
+    start_llgr (match e with [] => [] | _ :: _ => [GDeleteStaleRoutes e] end ++ [GStartLlgrTimers lp]) = Some lp.
+Proof. intros [|x r] lp; reflexivity. Qed.
+
+(* the restart-timer handler run in phase PeerRestarting with no LLGR timer armed *)
+Lemma restart_handler_inv : forall h stale llgr,
+    inv h -> h_gr h = GPeerRestarting stale llgr -> inv (restart_handler h []).
+Proof.
+  intros h stale llgr Hinv Hg. open_inv h Hinv. subst g. destruct Hp as [HS [Hrt [Hlt Hr]]]. subst S rt lt.
+  unfold restart_handler. cbn [h_gr h_rib].
+  destruct llgr as [lp|].
+  - cbn [gr_step]. rewrite delete_fams_expired, start_llgr_expired. cbn [upd_h].
+    set (rem := dedup (map fst lp)).
+    split.
+    + constructor; cbn [h_rib h_gen h_sess]; [|intros s Hs; discriminate].
+      intros r Hin. apply in_mark_llgr in Hin. destruct Hin as [q [Hq [_ [Hs _]]]]. rewrite Hs.
+      apply Hgen. apply in_drop in Hq. tauto.
+    + unfold pinv. cbn [h_gr h_rtimer h_ltimers h_rib h_sess].
+      split; [reflexivity|]. split; [reflexivity|]. split; [intros f; reflexivity|].
+      intros r Hin. apply in_mark_llgr in Hin. destruct Hin as [q [Hq [Hf [_ [_ Hm]]]]].
+      apply in_drop in Hq. destruct Hq as [Hq Hne]. destruct (Hr q Hq) as [Hst _].
+      rewrite mem_filter, Hst in Hne. cbn [andb] in Hne. apply negb_false_iff in Hne.
+      split; [rewrite Hf; exact Hne|].
+      subst rem. rewrite mem_dedup in Hne. apply Hm. exact Hne.
+  - cbn [gr_step delete_fams start_llgr flat_map fold_right upd_h]. rewrite app_nil_r.
+    assert (rib_drop rib stale = []) as ->.
+    { destruct (rib_drop rib stale) as [|r rest] eqn:E; [reflexivity|]. exfalso.
+      assert (In r (rib_drop rib stale)) as Hin by (rewrite E; left; reflexivity).
+      apply in_drop in Hin. destruct Hin as [Hin Hn]. destruct (Hr r Hin) as [Hst _]. congruence. }
+    split.
+    + constructor; cbn [h_rib h_gen h_sess]; [intros r [] | intros s Hs; discriminate].
+    + unfold pinv. cbn. repeat split. intros r [].
+Qed.
+
+Lemma inv_rtimer : forall h, inv h -> inv (h_step h HRestartTimer).
+Proof.
+  intros h Hinv. cbn [h_step]. destruct (h_rtimer h) eqn:Ert; [|exact Hinv].
+  destruct Hinv as [Hg Hp]. pose proof Hp as Hp'. unfold pinv in Hp'.
+  destruct (h_gr h) as [|stale llgr|rem|p fl] eqn:Eg.
+  - destruct Hp' as [H _]. congruence.
+  - destruct Hp' as [_ [_ [Hlt _]]]. rewrite Hlt. apply (restart_handler_inv h stale llgr); [split; assumption | exact Eg].
+  - destruct Hp' as [_ [H _]]. congruence.
+  - destruct Hp' as [H _]. congruence.
+Qed.
+
+(* one LLGR handler in phase LlgrStaling *)
+Lemma llgr_step_eq : forall rem rt lt rib S gen ad f,
+    llgr_handler {| h_gr := GLlgrStaling rem; h_rtimer := rt; h_ltimers := lt; h_rib := rib; h_sess := S;
+                    h_gen := gen; h_admin_down := ad |} f =
+    {| h_gr := match fremove f rem with [] => GIdle | _ => GLlgrStaling (fremove f rem) end;
+       h_rtimer := rt; h_ltimers := lt; h_rib := rib_drop_llgr_stale rib [f]; h_sess := S;
+       h_gen := gen; h_admin_down := ad |}.
+Proof. intros. unfold llgr_handler. cbn. destruct (fremove f rem); reflexivity. Qed.
+
+Lemma llgr_routes_after : forall rib rem f r,
+    (forall q, In q rib -> mem (r_fam q) rem = true /\ r_llgr q = true) ->
+    In r (rib_drop_llgr_stale rib [f]) ->
+    In r rib /\ mem (r_fam r) (fremove f rem) = true /\ r_llgr r = true.
+Proof.
+  intros rib rem f r Hr Hin. apply in_drop_llgr_stale in Hin. destruct Hin as [Hin Hn].
+  destruct (Hr r Hin) as [Hm Hl]. split; [exact Hin|]. split; [|exact Hl].
+  rewrite Hl, andb_true_r, mem_cons in Hn. change (mem (r_fam r) []) with false in Hn. rewrite orb_false_r in Hn.
+  rewrite mem_fremove, Hm, Hn. reflexivity.
+Qed.
+
+Lemma inv_ltimer : forall h f, inv h -> inv (h_step h (HLlgrTimer f)).
+Proof.
+  intros h f Hinv. cbn [h_step]. destruct (mem f (h_ltimers h)) eqn:Em; [|exact Hinv].
+  open_inv h Hinv.
+  destruct g as [|stale llgr|rem|p fl].
+  - destruct Hp as [_ [H _]]. subst lt. discriminate.
+  - destruct Hp as [_ [_ [H _]]]. subst lt. discriminate.
+  - destruct Hp as [HS [Hrt [Hlt Hr]]]. subst S rt. unfold upd_h. cbn [h_gr h_rtimer h_ltimers h_rib h_sess h_gen h_admin_down]. rewrite llgr_step_eq.
+    split.
+    + constructor; cbn [h_rib h_gen h_sess]; [|intros s Hs; discriminate].
+      intros r Hin. apply Hgen. apply (llgr_routes_after rib rem f r Hr Hin).
+    + unfold pinv. cbn [h_gr h_rtimer h_ltimers h_rib h_sess].
+      assert (forall x, mem x (fremove f lt) = mem x (fremove f rem)) as Hlt'
+          by (intros x; rewrite !mem_fremove, Hlt; reflexivity).
+      destruct (fremove f rem) as [|y ys] eqn:Er.
+      * split; [reflexivity|]. split; [apply mem_nil_list; exact Hlt'|].
+        intros r Hin. destruct (llgr_routes_after rib rem f r Hr Hin) as [_ [Hm _]]. rewrite Er in Hm. discriminate.
+      * split; [reflexivity|]. split; [reflexivity|]. split; [exact Hlt'|].
+        intros r Hin. destruct (llgr_routes_after rib rem f r Hr Hin) as [_ [Hm Hl]]. rewrite Er in Hm. tauto.
+  - destruct Hp as [_ [H _]]. subst lt. discriminate.
+Qed.
+
+(* force_down in phase LlgrStaling: every armed LLGR timer runs its handler *)
+Definition fq (rem0 : fset) (rib0 : list route) (gen : N) (P : list fam) (hh : hstate) : Prop :=
+  h_rtimer hh = false /\ h_ltimers hh = [] /\ h_sess hh = None /\ h_gen hh = gen
+  /\ (forall r, In r (h_rib hh) -> In r rib0)
+  /\ match h_gr hh with
+     | GIdle => h_rib hh = []
+     | GLlgrStaling rem' =>
+         (forall x, mem x rem' = true -> mem x rem0 = true /\ mem x P = false)
+         /\ (forall r, In r (h_rib hh) -> mem (r_fam r) rem' = true /\ r_llgr r = true)
+     | _ => False
+     end.
+
+Lemma fq_step : forall rem0 rib0 gen P hh f, fq rem0 rib0 gen P hh -> fq rem0 rib0 gen (f :: P) (llgr_handler hh f).
+Proof.
+  intros rem0 rib0 gen P hh f [H1 [H2 [H3 [H4 [H5 H6]]]]].
+  destruct hh as [g rt lt rib S gn ad]. cbn [h_gr h_rtimer h_ltimers h_rib h_sess h_gen] in *.
+  destruct g as [|stale llgr|rem'|p fl]; try contradiction.
+  - unfold llgr_handler. cbn. subst rib. unfold fq. cbn. repeat split; try assumption; try (intros r []); try contradiction.
+  - rewrite llgr_step_eq. destruct H6 as [Hx Hr]. unfold fq. cbn [h_gr h_rtimer h_ltimers h_rib h_sess h_gen].
+    split; [exact H1|]. split; [exact H2|]. split; [exact H3|]. split; [exact H4|].
+    split; [intros r Hin; apply H5; apply (llgr_routes_after rib rem' f r Hr Hin)|].
+    destruct (fremove f rem') as [|y ys] eqn:Er.
+    + destruct (rib_drop_llgr_stale rib [f]) as [|r rest] eqn:E; [reflexivity|]. exfalso.
+      assert (In r (rib_drop_llgr_stale rib [f])) as Hin by (rewrite E; left; reflexivity).
+      destruct (llgr_routes_after rib rem' f r Hr Hin) as [_ [Hm _]]. rewrite Er in Hm. discriminate.
+    + rewrite <- Er. split.
+      * intros x Hm. rewrite mem_fremove in Hm. apply andb_true_iff in Hm. destruct Hm as [Hm Hne].
+        destruct (Hx x Hm) as [Ha Hb]. split; [exact Ha|]. rewrite mem_cons, Hb. apply negb_true_iff in Hne. rewrite Hne. reflexivity.
+      * intros r Hin. destruct (llgr_routes_after rib rem' f r Hr Hin) as [_ Hc]. exact Hc.
+Qed.
+
+Lemma fq_fold : forall L rem0 rib0 gen P hh,
+    fq rem0 rib0 gen P hh -> fq rem0 rib0 gen (rev L ++ P) (fold_left llgr_handler L hh).
+Proof.
+  induction L as [|f r IH]; intros rem0 rib0 gen P hh H; cbn [fold_left rev app]; [exact H|].
+  rewrite <- app_assoc. cbn [app]. apply IH. apply fq_step. exact H.
+Qed.
+
+Lemma inv_force : forall h, inv h -> inv (h_step h HForceDown).
+Proof.
+  intros h Hinv. cbn [h_step]. destruct (h_rtimer h) eqn:Ert.
+  - (* the restart timer is armed: phase PeerRestarting, no LLGR timer *)
+    destruct Hinv as [Hg Hp]. pose proof Hp as Hp'. unfold pinv in Hp'.
+    destruct (h_gr h) as [|stale llgr|rem|p fl] eqn:Eg.
+    + destruct Hp' as [H _]. congruence.
+    + destruct Hp' as [_ [_ [Hlt _]]]. rewrite Hlt. cbn [fold_left].
+      apply (restart_handler_inv h stale llgr); [split; assumption | exact Eg].
+    + destruct Hp' as [_ [H _]]. congruence.
+    + destruct Hp' as [H _]. congruence.
+  - open_inv h Hinv. subst rt. unfold upd_h. cbn [h_gr h_rtimer h_ltimers h_rib h_sess h_gen h_admin_down].
+    destruct g as [|stale llgr|rem|p fl].
+    + destruct Hp as [_ [Hlt Hr]]. subst lt. cbn [fold_left]. split; [constructor; assumption|].
+      unfold pinv. cbn [h_gr h_rtimer h_ltimers h_rib h_sess]. split; [reflexivity|]. split; [reflexivity|]. exact Hr.
+    + destruct Hp as [_ [H _]]. discriminate.
+    + destruct Hp as [HS [_ [Hlt Hr]]]. subst S.
+      assert (fq rem rib gen []
+                 {| h_gr := GLlgrStaling rem; h_rtimer := false; h_ltimers := []; h_rib := rib; h_sess := None;
+                    h_gen := gen; h_admin_down := ad |}) as H0.
+      { unfold fq. cbn. repeat split; try tauto; try apply Hr; assumption. }
+      pose proof (fq_fold lt rem rib gen [] _ H0) as HF. rewrite app_nil_r in HF.
+      set (hh := fold_left llgr_handler lt _) in *.
+      destruct HF as [F1 [F2 [F3 [F4 [F5 F6]]]]].
+      split.
+      * constructor; [intros r Hin; rewrite F4; apply Hgen; apply F5; exact Hin | intros s Hs; congruence].
+      * unfold pinv. destruct (h_gr hh) as [|stale llgr|rem'|p fl]; try contradiction.
+        -- split; [exact F1|]. split; [exact F2|]. rewrite F6. intros r [].
+        -- destruct F6 as [Hx Hr']. split; [exact F3|]. split; [exact F1|].
+           assert (rem' = []) as ->.
+           { apply mem_nil_list. intros x. destruct (mem x rem') eqn:E; [|reflexivity]. destruct (Hx x E) as [Ha Hb].
+             rewrite <- Hlt in Ha. apply mem_In in Ha. apply in_rev in Ha. apply mem_In in Ha. pose proof (eq_trans (eq_sym Ha) Hb) as Hc. discriminate Hc. }
+           split; [intros f; rewrite F2; reflexivity|]. exact Hr'.
+    + destruct Hp as [_ [Hlt Hr]]. subst lt. cbn [fold_left]. split; [constructor; assumption|].
+      unfold pinv. cbn [h_gr h_rtimer h_ltimers h_rib h_sess]. split; [reflexivity|]. split; [reflexivity|]. exact Hr.
+Qed.
+
+Lemma outs_restart_est : forall d,
+    let outs := GStopTimer :: match d with [] => [] | _ :: _ => [GDeleteStaleRoutes d] end in
+    delete_fams outs = d /\ delete_llgr_fams outs = [] /\ has_stop_llgr outs = false.
+Proof. intros [|x r]; cbn; repeat split; rewrite ?app_nil_r; reflexivity. Qed.
+
+Lemma outs_llgr_est : forall d,
+    let outs := GStopLlgrTimers :: match d with [] => [] | _ :: _ => [GDeleteLlgrStaleRoutes d] end in
+    delete_fams outs = [] /\ delete_llgr_fams outs = d /\ has_stop_llgr outs = true.
+Proof. intros [|x r]; cbn; repeat split; rewrite ?app_nil_r; reflexivity. Qed.
+
+Lemma gr_step_restart_est : forall stale llgr l,
+    gr_step (GPeerRestarting stale llgr) (GSessionEstablished l) =
+    (match dedup l with [] => GIdle | _ :: _ => GPeerReconnected (dedup l) false end,
+     GStopTimer :: match filter (fun f => negb (mem f (dedup l))) stale with
+                   | [] => []
+                   | _ :: _ => [GDeleteStaleRoutes (filter (fun f => negb (mem f (dedup l))) stale)]
+                   end).
+Proof. intros stale [lp|] l; reflexivity. Qed.
+
+Lemma gr_step_llgr_est : forall rem l,
+    gr_step (GLlgrStaling rem) (GSessionEstablished l) =
+    (match dedup l with [] => GIdle | _ :: _ => GPeerReconnected (dedup l) true end,
+     GStopLlgrTimers :: match filter (fun f => negb (mem f (dedup l))) rem with
+                        | [] => []
+                        | _ :: _ => [GDeleteLlgrStaleRoutes (filter (fun f => negb (mem f (dedup l))) rem)]
+                        end).
+Proof. intros rem l; reflexivity. Qed.
+
+(* [fam] and [N] are convertible but not syntactically equal inside [match] nodes, which
+   defeats [rewrite]; the three projections of an output list are replaced by conversion *)
+Ltac rw_outs E1 E2 E3 :=
+  repeat match goal with
+  | |- context [delete_fams ?o] =>
+      lazymatch o with _ :: _ => idtac end;
+      let t := type of E1 in
+      match t with _ = ?d => replace (delete_fams o) with d by (symmetry; exact E1) end
+  end;
+  repeat match goal with
+  | |- context [delete_llgr_fams ?o] =>
+      lazymatch o with _ :: _ => idtac end;
+      let t := type of E2 in
+      match t with _ = ?d => replace (delete_llgr_fams o) with d by (symmetry; exact E2) end
+  end;
+  repeat match goal with
+  | |- context [has_stop_llgr ?o] =>
+      lazymatch o with _ :: _ => idtac end;
+      let t := type of E3 in
+      match t with _ = ?d => replace (has_stop_llgr o) with d by (symmetry; exact E3) end
+  end.
+
+Lemma norm_gr_subset : forall fams gr, subset_b (fams_of_gr (norm_gr fams gr)) fams = true.
+Proof.
+  intros fams [[[l rt] nb]|]; [|reflexivity]. unfold norm_gr.
+  match goal with |- context [filter ?p l] => destruct (filter p l) as [|x xs] eqn:E end; [reflexivity|].
+  cbn [fams_of_gr]. rewrite <- E. unfold subset_b. apply forallb_forall. intros f Hin. apply filter_In in Hin. tauto.
+Qed.
+
+Lemma norm_llgr_subset : forall fams ll, subset_b (fams_of_llgr (norm_llgr fams ll)) fams = true.
+Proof.
+  intros fams [l|]; [|reflexivity]. unfold norm_llgr.
+  match goal with |- context [filter ?p l] => destruct (filter p l) as [|x xs] eqn:E end; [reflexivity|].
+  cbn [fams_of_llgr]. rewrite <- E. unfold subset_b. apply forallb_forall. intros f Hin.
+  apply in_map_iff in Hin. destruct Hin as [e [He Hin]]. apply filter_In in Hin. subst f. tauto.
+Qed.
+
+Lemma inv_up : forall h fams gr0 ll0, inv h -> inv (h_step h (HUp fams gr0 ll0)).
+Proof.
+  intros h fams gr0 ll0 Hinv. cbn [h_step]. cbv zeta.
+  pose proof (norm_gr_subset fams gr0) as Hwg. pose proof (norm_llgr_subset fams ll0) as Hwl.
+  set (gr := norm_gr fams gr0) in *. set (ll := norm_llgr fams ll0) in *. clearbody gr ll.
+  destruct (h_sess h) as [s0|] eqn:Es; [exact Hinv|].
+  open_inv h Hinv. subst S.
+  change (match gr with Some (l, _, _) => l | None => [] end) with (fams_of_gr gr).
+  (* the part of the invariant that does not depend on the phase *)
+  assert (forall g' lt' rib',
+             (forall r, In r rib' -> In r rib) -> lt' = [] ->
+             ginv {| h_gr := g'; h_rtimer := false; h_ltimers := lt'; h_rib := rib';
+                     h_sess := Some {| s_gen := gen + 1; s_fams := fams; s_gr := gr; s_llgr := ll |};
+                     h_gen := gen + 1; h_admin_down := ad |}) as Hginv.
+  { intros g' lt' rib' Hsub Hlt'. constructor; cbn [h_rib h_gen h_sess h_rtimer h_ltimers].
+    - intros r Hin. specialize (Hgen r (Hsub r Hin)). lia.
+    - intros s Hs. inversion Hs; subst s. cbn [s_gen s_fams s_gr s_llgr].
+      repeat split; try assumption; specialize (Hgen r (Hsub r H)); lia. }
+  (* every old route is retained once the new session exists *)
+  assert (forall g' rt' lt' rib' r, In r rib ->
+             retained {| h_gr := g'; h_rtimer := rt'; h_ltimers := lt'; h_rib := rib';
+                         h_sess := Some {| s_gen := gen + 1; s_fams := fams; s_gr := gr; s_llgr := ll |};
+                         h_gen := gen + 1; h_admin_down := ad |} r = true) as Hold.
+  { intros g' rt' lt' rib' r Hin. unfold retained. cbn. specialize (Hgen r Hin).
+    assert (r_sess r =? gen + 1 = false) as -> by lia. reflexivity. }
+  destruct g as [|stale llgr|rem|p fl].
+  - (* Idle: no route is left from before *)
+    assert (rib = []) as -> by (apply (idle_no_session_empty
+        {| h_gr := GIdle; h_rtimer := rt; h_ltimers := lt; h_rib := rib; h_sess := None; h_gen := gen; h_admin_down := ad |});
+        [exact Hp | reflexivity | reflexivity]).
+    destruct Hp as [_ [Hlt _]]. subst lt. cbn.
+    split; [apply Hginv; [intros r H; exact H | reflexivity]|].
+    unfold pinv. cbn. repeat split. intros r [].
+  - destruct Hp as [_ [_ [Hlt Hr]]]. subst lt. rewrite gr_step_restart_est.
+    set (gr_set := dedup (fams_of_gr gr)).
+    set (dropped := filter (fun f => negb (mem f gr_set)) stale).
+    pose proof (outs_restart_est dropped) as E. cbv zeta in E. destruct E as [E1 [E2 E3]]. cbv beta iota zeta. rw_outs E1 E2 E3.
+    rewrite drop_llgr_stale_nil.
+    assert (forall r, In r (rib_drop_stale rib dropped) ->
+                      In r rib /\ mem (r_fam r) gr_set = true /\ r_stale r = true) as Hkeep.
+    { intros r Hin. apply in_drop_stale in Hin. destruct Hin as [Hin Hn]. destruct (Hr r Hin) as [Hst Hs].
+      split; [exact Hin|]. split; [|exact Hs]. rewrite Hs, andb_true_r in Hn. subst dropped.
+      rewrite mem_filter, Hst in Hn. cbn [andb] in Hn. apply negb_false_iff in Hn. exact Hn. }
+    split; [apply Hginv; [intros r H; apply (Hkeep r H) | reflexivity]|].
+    unfold pinv. cbn [h_gr h_rtimer h_ltimers h_rib h_sess].
+    destruct gr_set as [|x xs] eqn:Egs.
+    + split; [reflexivity|]. split; [reflexivity|]. intros r Hin.
+      destruct (Hkeep r Hin) as [_ [Hm _]]. discriminate.
+    + split; [reflexivity|]. split; [reflexivity|]. intros r Hin _.
+      destruct (Hkeep r Hin) as [_ [Hm Hs]]. split; [exact Hm|]. split; [|exact Hs].
+      eexists. split; [reflexivity|]. cbn [s_gr]. rewrite <- Egs in Hm. subst gr_set. rewrite mem_dedup in Hm. exact Hm.
+  - destruct Hp as [_ [_ [Hlt Hr]]]. rewrite gr_step_llgr_est.
+    set (gr_set := dedup (fams_of_gr gr)).
+    set (dropped := filter (fun f => negb (mem f gr_set)) rem).
+    pose proof (outs_llgr_est dropped) as E. cbv zeta in E. destruct E as [E1 [E2 E3]]. cbv beta iota zeta. rw_outs E1 E2 E3.
+    rewrite drop_stale_nil.
+    assert (forall r, In r (rib_drop_llgr_stale rib dropped) ->
+                      In r rib /\ mem (r_fam r) gr_set = true /\ r_llgr r = true) as Hkeep.
+    { intros r Hin. apply in_drop_llgr_stale in Hin. destruct Hin as [Hin Hn]. destruct (Hr r Hin) as [Hst Hs].
+      split; [exact Hin|]. split; [|exact Hs]. rewrite Hs, andb_true_r in Hn. subst dropped.
+      rewrite mem_filter, Hst in Hn. cbn [andb] in Hn. apply negb_false_iff in Hn. exact Hn. }
+    split; [apply Hginv; [intros r H; apply (Hkeep r H) | reflexivity]|].
+    unfold pinv. cbn [h_gr h_rtimer h_ltimers h_rib h_sess].
+    destruct gr_set as [|x xs] eqn:Egs.
+    + split; [reflexivity|]. split; [reflexivity|]. intros r Hin.
+      destruct (Hkeep r Hin) as [_ [Hm _]]. discriminate.
+    + split; [reflexivity|]. split; [reflexivity|]. intros r Hin _.
+      destruct (Hkeep r Hin) as [_ [Hm Hs]]. split; [exact Hm|]. split; [|exact Hs].
+      eexists. split; [reflexivity|]. cbn [s_gr]. rewrite <- Egs in Hm. subst gr_set. rewrite mem_dedup in Hm. exact Hm.
+  - (* PeerReconnected left over from a non-eligible drop: nothing is retained *)
+    assert (rib = []) as -> by (apply (reconnected_no_session_empty
+        {| h_gr := GPeerReconnected p fl; h_rtimer := rt; h_ltimers := lt; h_rib := rib; h_sess := None;
+           h_gen := gen; h_admin_down := ad |} p fl); [exact Hp | reflexivity | reflexivity]).
+    destruct Hp as [_ [Hlt _]]. subst lt.
+    assert (gr_step (GPeerReconnected p fl) (GSessionEstablished (fams_of_gr gr)) = (GPeerReconnected p fl, [])) as ->
+        by (destruct fl; reflexivity).
+    cbn.
+    split; [apply Hginv; [intros r H; exact H | reflexivity]|].
+    unfold pinv. cbn [h_gr h_rtimer h_ltimers h_rib h_sess]. split; [reflexivity|]. split; [reflexivity|]. intros r [].
+Qed.
+
+Lemma gr_step_drop_gr : forall g l rtm ll,
+    (g = GIdle \/ exists p fl, g = GPeerReconnected p fl) ->
+    gr_step g (GSessionDropped (Some (l, rtm)) ll) =
+    (GPeerRestarting (fold_left (fun acc f => if mem f acc then acc else acc ++ [f])
+                                (match ll with Some lp => map fst lp | None => [] end) l) ll,
+     [GStartTimer rtm]).
+Proof. intros g l rtm ll [->|[p [fl ->]]]; [|destruct fl]; reflexivity. Qed.
+
+Lemma gr_step_drop_llgr : forall g lp,
+    (g = GIdle \/ exists p fl, g = GPeerReconnected p fl) ->
+    gr_step g (GSessionDropped None (Some lp)) = (GLlgrStaling (dedup (map fst lp)), [GStartLlgrTimers lp]).
+Proof. intros g lp [->|[p [fl ->]]]; [|destruct fl]; reflexivity. Qed.
+
+Lemma subset_b_mem : forall a b f, subset_b a b = true -> mem f a = true -> mem f b = true.
+Proof.
+  intros a b f Hs Hm. unfold subset_b in Hs. rewrite forallb_forall in Hs. apply Hs. apply mem_In. exact Hm.
+Qed.
+
+(* the disconnect handling, for whatever the eligibility decision was *)
+Lemma down_core : forall g rt lt rib s gen ad (gr2 : option (list fam * N)) (llgr2 : option (list (fam * N))),
+    inv {| h_gr := g; h_rtimer := rt; h_ltimers := lt; h_rib := rib; h_sess := Some s; h_gen := gen; h_admin_down := ad |} ->
+    let gr_fams := match gr2 with Some (l, _) => l | None => [] end in
+    let llgr_fams := match llgr2 with Some l => map fst l | None => [] end in
+    let drop_fams := filter (fun f => negb (mem f gr_fams) && negb (mem f llgr_fams)) (s_fams s) in
+    inv (apply_disconnect
+           {| h_gr := g; h_rtimer := rt; h_ltimers := lt;
+              h_rib := rib_restale (rib_drop rib drop_fams) (gr_fams ++ llgr_fams);
+              h_sess := None; h_gen := gen; h_admin_down := ad |} gr2 llgr2).
+Proof.
+  intros g rt lt rib s gen ad gr2 llgr2 Hinv gr_fams llgr_fams drop_fams.
+  destruct Hinv as [[Hgen Hsess] Hp]. unfold pinv in Hp.
+  cbn [h_gr h_rtimer h_ltimers h_rib h_sess h_gen h_admin_down] in *.
+  destruct (Hsess s eq_refl) as [Hg [Hrt [Hlt [Hsg [Hsl Hcur]]]]]. subst rt lt.
+  (* the session is up: the phase is Idle or PeerReconnected *)
+  assert (g = GIdle \/ exists p fl, g = GPeerReconnected p fl) as Hphase.
+  { destruct g as [|stale llgr|rem|p fl]; [left; reflexivity | | | right; exists p, fl; reflexivity];
+      destruct Hp as [Hn _]; discriminate. }
+  (* every route of the peer is in a family of the session *)
+  assert (forall q, In q rib -> mem (r_fam q) (s_fams s) = true) as Hfam.
+  { intros q Hin.
+    destruct (retained {| h_gr := g; h_rtimer := false; h_ltimers := []; h_rib := rib; h_sess := Some s;
+                          h_gen := gen; h_admin_down := ad |} q) eqn:Er.
+    - destruct Hphase as [->|[p [fl ->]]].
+      + destruct Hp as [_ [_ Hr]]. rewrite (Hr q Hin) in Er. discriminate.
+      + destruct Hp as [_ [_ Hr]]. destruct (Hr q Hin Er) as [_ [[s0 [Hs0 Hm]] _]]. inversion Hs0; subst s0.
+        apply (subset_b_mem _ _ _ Hsg Hm).
+    - unfold retained in Er. cbn in Er. apply orb_false_iff in Er. destruct Er as [Er _].
+      apply orb_false_iff in Er. destruct Er as [Er _]. apply negb_false_iff in Er. apply N.eqb_eq in Er.
+      apply (Hcur q Hin Er). }
+  (* what is left after the drop is in a kept family and marked stale *)
+  set (rib1 := rib_restale (rib_drop rib drop_fams) (gr_fams ++ llgr_fams)).
+  assert (forall r, In r rib1 ->
+             r_sess r <= gen /\ (mem (r_fam r) gr_fams || mem (r_fam r) llgr_fams) = true /\ r_stale r = true) as Hrib1.
+  { intros r Hin. subst rib1. apply in_restale in Hin. destruct Hin as [q [Hq [Hf [Hs [_ [_ Hst]]]]]].
+    apply in_drop in Hq. destruct Hq as [Hq Hnd].
+    subst drop_fams. rewrite mem_filter, (Hfam q Hq) in Hnd. cbn [andb] in Hnd.
+    assert (mem (r_fam q) gr_fams || mem (r_fam q) llgr_fams = true) as Hk
+        by (destruct (mem (r_fam q) gr_fams), (mem (r_fam q) llgr_fams); cbn in *; congruence).
+    split; [rewrite Hs; apply Hgen; exact Hq|]. split; [rewrite Hf; exact Hk|].
+    apply Hst. rewrite mem_app. exact Hk. }
+  unfold apply_disconnect. cbn [h_gr h_rib h_ltimers h_rtimer].
+  destruct gr2 as [[l rtm]|].
+  - rewrite (gr_step_drop_gr g l rtm llgr2 Hphase). cbn [existsb start_llgr fold_right upd_h h_sess h_gen h_admin_down].
+    split.
+    + constructor; cbn [h_rib h_gen h_sess]; [intros r Hin; apply (Hrib1 r Hin) | intros s0 Hs0; discriminate].
+    + unfold pinv. cbn [h_gr h_rtimer h_ltimers h_rib h_sess].
+      split; [reflexivity|]. split; [reflexivity|]. split; [reflexivity|]. intros r Hin.
+      destruct (Hrib1 r Hin) as [_ [Hk Hst]]. split; [|exact Hst]. rewrite mem_stale_fold. exact Hk.
+  - destruct llgr2 as [lp|].
+    + rewrite (gr_step_drop_llgr g lp Hphase). cbn [existsb start_llgr fold_right upd_h h_sess h_gen h_admin_down].
+      split.
+      * constructor; cbn [h_rib h_gen h_sess]; [|intros s0 Hs0; discriminate].
+        intros r Hin. apply in_mark_llgr in Hin. destruct Hin as [q [Hq [_ [Hs _]]]]. rewrite Hs. apply (Hrib1 q Hq).
+      * unfold pinv. cbn [h_gr h_rtimer h_ltimers h_rib h_sess].
+        split; [reflexivity|]. split; [reflexivity|]. split; [intros f; reflexivity|]. intros r Hin.
+        apply in_mark_llgr in Hin. destruct Hin as [q [Hq [Hf [_ [_ Hm]]]]].
+        destruct (Hrib1 q Hq) as [_ [Hk _]]. subst gr_fams llgr_fams. cbn [mem existsb orb] in Hk.
+        change (mem (r_fam q) []) with false in Hk. cbn [orb] in Hk.
+        split; [rewrite mem_dedup, Hf; exact Hk | apply Hm; exact Hk].
+    + (* not eligible: nothing is kept *)
+      assert (rib1 = []) as ->.
+      { destruct rib1 as [|r rest] eqn:E; [reflexivity|]. exfalso.
+        destruct (Hrib1 r (or_introl eq_refl)) as [_ [Hk _]]. subst gr_fams llgr_fams. discriminate. }
+      cbn [upd_h h_sess h_gen h_admin_down h_gr h_rtimer h_ltimers h_rib].
+      split.
+      * constructor; cbn [h_rib h_gen h_sess]; [intros r [] | intros s0 Hs0; discriminate].
+      * unfold pinv. cbn [h_gr h_rtimer h_ltimers h_rib h_sess].
+        destruct Hphase as [->|[p [fl ->]]]; cbn [is_peer_restarting];
+          (split; [reflexivity|]); (split; [reflexivity|]); intros r [].
+Qed.
+
+Lemma inv_down : forall h r, inv h -> inv (h_step h (HDown r)).
+Proof.
+  intros h r Hinv. cbn [h_step]. destruct (h_sess h) as [s|] eqn:Es; [|exact Hinv].
+  destruct h as [g rt lt rib S gen ad]. cbn [h_gr h_rtimer h_ltimers h_rib h_sess h_gen h_admin_down] in *. subst S.
+  cbv zeta. apply down_core. exact Hinv.
+Qed.
+
+Lemma inv_step : forall h e, inv h -> inv (h_step h e).
+Proof.
+  intros h e Hinv. destruct e as [fams gr ll|f id nl lc|f|r| | |f| |b].
+  - apply inv_up; assumption.
+  - apply inv_announce; assumption.
+  - apply inv_eor; assumption.
+  - apply inv_down; assumption.
+  - apply inv_fail; assumption.
+  - apply inv_rtimer; assumption.
+  - apply inv_ltimer; assumption.
+  - apply inv_force; assumption.
+  - apply inv_admin; assumption.
+Qed.
+
+Lemma inv_run : forall evs h, inv h -> inv (h_run h evs).
+Proof.
+  induction evs as [|e r IH]; intros h Hinv; [exact Hinv|].
+  unfold h_run. cbn [fold_left]. apply IH. apply inv_step. exact Hinv.
+Qed.
+
+(* ------------------------------------------------------------ the invariant, for all histories *)
+
+Lemma stale_ok_along_inv : forall evs h, inv h -> stale_ok_along h evs = true.
+Proof.
+  induction evs as [|e r IH]; intros h Hinv; [reflexivity|]. cbn [stale_ok_along].
+  pose proof (inv_step h e Hinv) as Hinv'. rewrite (inv_stale_ok _ Hinv'). cbn [andb]. apply IH; assumption.
+Qed.
+
+(* Stale routes exist only while a restart timer or an LLGR timer is armed or an
+   End-of-RIB is awaited on the re-established session: after every step of every
+   history (sessions up with any negotiated GR / LLGR sets, announcements,
+   End-of-RIB markers, drops for every reason, failed connection attempts, timer
+   expiries, forced peer-down, admin-down in any order). *)
+Theorem C10_stale_implies_timer_or_eor :
+  forall (evs : list hevent),
+    stale_ok_along h0 evs = true /\ stale_ok (h_run h0 evs) = true.
+Proof.
+  intros evs. split.
+  - apply stale_ok_along_inv. exact inv_h0.
+  - apply inv_stale_ok. apply inv_run. exact inv_h0.
+Qed.
+
+(* the phase / timer / route consistency behind it, as a usable corollary: in every
+   reachable state a session that is up has no timer armed and its own routes are
+   unmarked and in its families; the restart timer is armed exactly in phase
+   PeerRestarting; LLGR timers are armed only in phase LlgrStaling, for the
+   families still staling *)
+Theorem C10_phase_timer_consistency :
+  forall (evs : list hevent),
+    let h := h_run h0 evs in
+    (forall s, h_sess h = Some s ->
+        h_rtimer h = false /\ h_ltimers h = [] /\
+        forall r, In r (h_rib h) -> r_sess r = s_gen s ->
+                  r_stale r = false /\ r_llgr r = false /\ mem (r_fam r) (s_fams s) = true)
+    /\ (h_rtimer h = true <-> exists stale llgr, h_gr h = GPeerRestarting stale llgr)
+    /\ (forall f, mem f (h_ltimers h) = true -> exists rem, h_gr h = GLlgrStaling rem /\ mem f rem = true).
+Proof.
+  intros evs h. pose proof (inv_run evs h0 inv_h0) as [Hg Hp]. fold h in Hg, Hp. unfold pinv in Hp.
+  split; [|split].
+  - intros s Hs. destruct (gi_sess h Hg s Hs) as [_ [A [B [_ [_ C]]]]]. repeat split; try assumption; apply (C r H H0).
+  - destruct (h_gr h) as [|stale llgr|rem|p fl].
+    + destruct Hp as [A _]. split; [congruence | intros [x [y Hx]]; discriminate].
+    + destruct Hp as [_ [A _]]. split; [intros _; exists stale, llgr; reflexivity | intros _; exact A].
+    + destruct Hp as [_ [A _]]. split; [congruence | intros [x [y Hx]]; discriminate].
+    + destruct Hp as [A _]. split; [congruence | intros [x [y Hx]]; discriminate].
+  - intros f Hf. destruct (h_gr h) as [|stale llgr|rem|p fl].
+    + destruct Hp as [_ [A _]]. rewrite A in Hf. discriminate.
+    + destruct Hp as [_ [_ [A _]]]. rewrite A in Hf. discriminate.
+    + destruct Hp as [_ [_ [A _]]]. exists rem. split; [reflexivity | rewrite <- A; exact Hf].
+    + destruct Hp as [_ [A _]]. rewrite A in Hf. discriminate.
+Qed.
+
+(* ------------------------------------------------------------ one-step facts of the glue *)
 
 (* (a) a connection attempt that ends before Established leaves every pending
        timer, the helper phase and the routes as they were *)
@@ -53,37 +814,21 @@ Proof.
 Qed.
 
 (* (b) NO_LLGR routes are gone when the LLGR period of their family starts *)
-Lemma mark_llgr_no_llgr : forall rib fams r,
-    In r (rib_mark_llgr rib fams) -> in_fams fams r = true -> r_no_llgr r = false.
-Proof.
-  intros rib fams r Hin Hf. unfold rib_mark_llgr in Hin. apply filter_In in Hin. destruct Hin as [_ Hn].
-  rewrite Hf in Hn. cbn [andb] in Hn. destruct (r_no_llgr r); [discriminate | reflexivity].
-Qed.
-
-Lemma mark_llgr_marks : forall rib fams r,
-    In r (rib_mark_llgr rib fams) -> in_fams fams r = true -> r_llgr r = true.
-Proof.
-  intros rib fams r Hin Hf. unfold rib_mark_llgr in Hin. apply filter_In in Hin. destruct Hin as [Hin _].
-  apply in_map_iff in Hin. destruct Hin as [q [Hq _]].
-  destruct (in_fams fams q) eqn:E; subst r; [reflexivity|]. congruence.
-Qed.
-
 Theorem C10_no_llgr_dropped_at_llgr_start :
   forall (h : hstate) (l : list (fam * N)),
-    (* the restart timer expires and the LLGR period starts for the families of l *)
     h_rtimer h = true -> start_llgr (snd (gr_step (h_gr h) GTimerExpired)) = Some l ->
     let h' := h_step h HRestartTimer in
     (forall f, In f (map fst l) -> mem f (h_ltimers h') = true)
     /\ (forall r, In r (h_rib h') -> mem (r_fam r) (map fst l) = true -> r_no_llgr r = false /\ r_llgr r = true).
 Proof.
-  intros h l Hrt Hst h'. subst h'. cbn [h_step]. rewrite Hrt.
+  intros h l Hrt Hst h'. subst h'. cbn [h_step]. rewrite Hrt. unfold restart_handler.
   destruct (gr_step (h_gr h) GTimerExpired) as [g' outs]. cbn [snd] in Hst. rewrite Hst. cbn [h_ltimers h_rib upd_h].
   split.
   - intros f Hf. unfold add_timers. rewrite mem_dedup. apply mem_In. apply in_or_app. right. exact Hf.
-  - intros r Hin Hf. split; [eapply mark_llgr_no_llgr | eapply mark_llgr_marks]; eassumption.
+  - intros r Hin Hf. apply in_mark_llgr in Hin. destruct Hin as [q [_ [Hfq [_ [_ Hm]]]]].
+    rewrite Hfq in Hf. destruct (Hm Hf) as [A B]. split; assumption.
 Qed.
 
-(* the same at a session drop that starts the LLGR period at once (LLGR only) *)
 Theorem C10_no_llgr_dropped_at_llgr_only_drop :
   forall (h : hstate) gr ll (l : list (fam * N)),
     start_llgr (snd (gr_step (h_gr h) (GSessionDropped gr ll))) = Some l ->
@@ -95,71 +840,55 @@ Proof.
   destruct (gr_step (h_gr h) (GSessionDropped gr ll)) as [g' outs]. cbn [snd] in Hst.
   destruct gr as [g|]; [|destruct ll as [x|]; [|destruct Hne; congruence]];
     rewrite Hst in Hin; cbn [h_rib upd_h] in Hin;
-    (split; [eapply mark_llgr_no_llgr | eapply mark_llgr_marks]; eassumption).
+    (apply in_mark_llgr in Hin; destruct Hin as [q [_ [Hfq [_ [_ Hm]]]]]; rewrite Hfq in Hf;
+     destruct (Hm Hf) as [A B]; split; assumption).
 Qed.
 
-(* (c) the stale purges never remove an unmarked route that does not carry the
-       LLGR_STALE community: End-of-RIB and re-establishment only delete marked routes *)
-Lemma drop_stale_keeps : forall rib fams r, In r rib -> r_stale r = false -> In r (rib_drop_stale rib fams).
-Proof. intros rib fams r Hi Hs. apply filter_In_keep; [assumption|]. rewrite Hs, andb_false_r. reflexivity. Qed.
-
-Lemma drop_llgr_stale_keeps : forall rib fams r,
-    In r rib -> r_llgr r = false -> r_llgr_comm r = false -> In r (rib_drop_llgr_stale rib fams).
-Proof.
-  intros rib fams r Hi Hl Hc. apply filter_In_keep; [assumption|]. unfold is_llgr_stale.
-  rewrite Hl, Hc, andb_false_r. reflexivity.
-Qed.
-
-Theorem C10_fresh_routes_survive_purge_outside_known :
+(* (c) the stale purges (End-of-RIB, re-establishment) never remove an unmarked route;
+       in particular not a route re-announced on the new session, whatever communities it carries *)
+Theorem C10_fresh_routes_survive_purge :
   forall (h : hstate) (e : hevent) (r : route),
     (exists f, e = HEor f) \/ (exists fams gr ll, e = HUp fams gr ll) ->
     In r (h_rib h) -> r_stale r = false -> r_llgr r = false ->
-    r_llgr_comm r = false ->                                   (* ~ Known_C10_6 for this route *)
     In r (h_rib (h_step h e)).
 Proof.
-  intros h e r He Hin Hs Hl Hc. destruct He as [[f ->]|[fams [gr [ll ->]]]]; cbn [h_step].
+  intros h e r He Hin Hs Hl. destruct He as [[f ->]|[fams [gr [ll ->]]]]; cbn [h_step].
   - destruct (h_sess h) as [s|]; [|assumption]. destruct (s_gr s); [|assumption].
     destruct (gr_step (h_gr h) (GEorReceived f)) as [g' outs]. cbn [h_rib upd_h].
-    apply drop_llgr_stale_keeps; [apply drop_stale_keeps|..]; assumption.
+    apply in_drop_llgr_stale. split; [apply in_drop_stale; split; [assumption|]|]; rewrite ?Hs, ?Hl; apply andb_false_r.
   - destruct (h_sess h) as [s|]; [assumption|].
     destruct (gr_step (h_gr h) _) as [g' outs]. cbn [h_rib].
-    apply drop_llgr_stale_keeps; [apply drop_stale_keeps|..]; assumption.
+    apply in_drop_llgr_stale. split; [apply in_drop_stale; split; [assumption|]|]; rewrite ?Hs, ?Hl; apply andb_false_r.
 Qed.
 
-(* finding C10-6: with the community the fresh route is purged *)
-Definition w6 : list hevent :=
-  [HUp [V4] (Some ([V4], 120, false)) (Some [(V4, 3600)]); HAnnounce V4 0 false false; HDown RsTcp; HRestartTimer;
-   HUp [V4] (Some ([V4], 120, false)) (Some [(V4, 3600)]); HAnnounce V4 1 false true].
-
-Theorem C10_fresh_routes_survive_purge_refuted :
-  exists (evs : list hevent) (f : fam) (r : route),
-    Known_C10_6 evs = true /\
+(* ... and in every reachable state the routes of the live session are unmarked, so they
+   survive the purge *)
+Theorem C10_live_session_routes_survive_purge :
+  forall (evs : list hevent) (e : hevent) (s : session) (r : route),
     let h := h_run h0 evs in
-    In r (h_rib h) /\ retained h r = false /\ ~ In r (h_rib (h_step h (HEor f))).
+    h_sess h = Some s -> In r (h_rib h) -> r_sess r = s_gen s ->
+    (exists f, e = HEor f) ->
+    In r (h_rib (h_step h e)).
 Proof.
-  exists w6, V4, {| r_fam := V4; r_id := 1; r_sess := 2; r_stale := false; r_llgr := false;
-                   r_no_llgr := false; r_llgr_comm := true |}.
-  split; [vm_compute; reflexivity|]. cbv zeta. split; [vm_compute; auto|]. split; [vm_compute; reflexivity|].
-  vm_compute. intros [].
+  intros evs e s r h Hs Hin Hg He.
+  pose proof (inv_run evs h0 inv_h0) as [[_ Hsess] _]. fold h in Hsess.
+  destruct (Hsess s Hs) as [_ [_ [_ [_ [_ Hcur]]]]]. destruct (Hcur r Hin Hg) as [A [B _]].
+  apply C10_fresh_routes_survive_purge; [left; exact He | assumption..].
 Qed.
 
 (* (d) removal no later than the expiry / the End-of-RIB *)
 Theorem C10_purged_by_expiry_or_eor :
   forall (h : hstate),
-    (* End-of-RIB for a family awaited after a GR reconnect *)
     (forall f s g pending, h_sess h = Some s -> s_gr s = Some g -> h_gr h = GPeerReconnected pending false ->
         forall r, In r (h_rib (h_step h (HEor f))) -> r_fam r = f -> r_stale r = false)
-    (* ... after an LLGR reconnect *)
     /\ (forall f s g pending, h_sess h = Some s -> s_gr s = Some g -> h_gr h = GPeerReconnected pending true ->
-        forall r, In r (h_rib (h_step h (HEor f))) -> r_fam r = f -> is_llgr_stale r = false)
-    (* restart timer expiry without LLGR: nothing of the stale families is left *)
+        forall r, In r (h_rib (h_step h (HEor f))) -> r_fam r = f -> r_llgr r = false)
     /\ (forall stale, h_rtimer h = true -> h_gr h = GPeerRestarting stale None ->
         forall r, In r (h_rib (h_step h HRestartTimer)) -> mem (r_fam r) stale = false)
-    (* LLGR timer expiry *)
     /\ (forall f remaining, mem f (h_ltimers h) = true -> h_gr h = GLlgrStaling remaining ->
-        forall r, In r (h_rib (h_step h (HLlgrTimer f))) -> r_fam r = f -> is_llgr_stale r = false).
+        forall r, In r (h_rib (h_step h (HLlgrTimer f))) -> r_fam r = f -> r_llgr r = false).
 Proof.
-  intros h. repeat split.
+  intros h. split; [|split; [|split]].
   - intros f s g pending Hs Hg Hgr r Hin Hf. cbn [h_step] in Hin. rewrite Hs, Hg, Hgr in Hin.
     cbn in Hin. apply filter_In in Hin. destruct Hin as [Hin _]. apply filter_In in Hin. destruct Hin as [_ Hn].
     unfold in_fams, mem in Hn. cbn [existsb] in Hn. rewrite Hf, N.eqb_refl in Hn. cbn in Hn.
@@ -167,48 +896,46 @@ Proof.
   - intros f s g pending Hs Hg Hgr r Hin Hf. cbn [h_step] in Hin. rewrite Hs, Hg, Hgr in Hin.
     cbn in Hin. apply filter_In in Hin. destruct Hin as [_ Hn].
     unfold in_fams, mem in Hn. cbn [existsb] in Hn. rewrite Hf, N.eqb_refl in Hn. cbn in Hn.
-    destruct (is_llgr_stale r); [discriminate | reflexivity].
-  - intros stale Hrt Hgr r Hin. cbn [h_step] in Hin. rewrite Hrt, Hgr in Hin. cbn in Hin.
+    destruct (r_llgr r); [discriminate | reflexivity].
+  - intros stale Hrt Hgr r Hin. cbn [h_step] in Hin. rewrite Hrt in Hin. unfold restart_handler in Hin.
+    rewrite Hgr in Hin. cbn in Hin.
     rewrite app_nil_r in Hin. apply filter_In in Hin. destruct Hin as [_ Hn]. unfold in_fams in Hn.
     destruct (mem (r_fam r) stale); [discriminate | reflexivity].
-  - intros f remaining Hlt Hgr r Hin Hf. cbn [h_step] in Hin. rewrite Hlt, Hgr in Hin. cbn in Hin.
+  - intros f remaining Hlt Hgr r Hin Hf. cbn [h_step] in Hin. rewrite Hlt in Hin. unfold llgr_handler, upd_h in Hin.
+    cbn [h_gr h_rib h_rtimer h_ltimers] in Hin. rewrite Hgr in Hin. cbn in Hin.
     apply filter_In in Hin. destruct Hin as [_ Hn].
     unfold in_fams, mem in Hn. cbn [existsb] in Hn. rewrite Hf, N.eqb_refl in Hn. cbn in Hn.
-    destruct (is_llgr_stale r); [discriminate | reflexivity].
+    destruct (r_llgr r); [discriminate | reflexivity].
 Qed.
 
-(* (e) at a session drop the routes of every family that was not negotiated for
-       GR or LLGR are removed at once (whatever the reason) *)
-Lemma in_restale : forall rib fams r, In r (rib_restale rib fams) -> exists q, In q rib /\ r_fam q = r_fam r.
+(* (e) at a session drop only routes of families that were negotiated for GR or
+       LLGR can remain: every other family is removed at once, whatever the reason *)
+Lemma down_kept : forall h0' (sf : list fam) rib (gr2 : option (list fam * N)) (ll2 : option (list (fam * N))) r,
+    let grf := match gr2 with Some (l, _) => l | None => [] end in
+    let llf := match ll2 with Some l => map fst l | None => [] end in
+    In r (h_rib (apply_disconnect
+                   {| h_gr := h_gr h0'; h_rtimer := h_rtimer h0'; h_ltimers := h_ltimers h0';
+                      h_rib := rib_restale (rib_drop rib (filter (fun f => negb (mem f grf) && negb (mem f llf)) sf)) (grf ++ llf);
+                      h_sess := None; h_gen := h_gen h0'; h_admin_down := h_admin_down h0' |} gr2 ll2)) ->
+    mem (r_fam r) sf = true ->
+    mem (r_fam r) grf = true \/ mem (r_fam r) llf = true.
 Proof.
-  intros rib fams r Hin. unfold rib_restale in Hin. apply in_map_iff in Hin. destruct Hin as [q [Hq Hin]].
-  exists q. split; [assumption|]. destruct (in_fams fams q); subst r; reflexivity.
-Qed.
-
-Lemma in_mark_llgr : forall rib fams r, In r (rib_mark_llgr rib fams) -> exists q, In q rib /\ r_fam q = r_fam r.
-Proof.
-  intros rib fams r Hin. unfold rib_mark_llgr in Hin. apply filter_In in Hin. destruct Hin as [Hin _].
-  apply in_map_iff in Hin. destruct Hin as [q [Hq Hin]].
-  exists q. split; [assumption|]. destruct (in_fams fams q); subst r; reflexivity.
-Qed.
-
-Lemma apply_disconnect_fams : forall h gr ll r,
-    In r (h_rib (apply_disconnect h gr ll)) -> exists q, In q (h_rib h) /\ r_fam q = r_fam r.
-Proof.
-  intros h gr ll r Hin. unfold apply_disconnect in Hin.
-  assert (forall g' outs,
-             In r (h_rib match start_llgr outs with
-                         | Some l => upd_h h g' (existsb (fun o => match o with GStartTimer _ => true | _ => false end) outs)
-                                           (add_timers (h_ltimers h) (map fst l)) (rib_mark_llgr (h_rib h) (map fst l))
-                         | None => upd_h h g' (existsb (fun o => match o with GStartTimer _ => true | _ => false end) outs)
-                                         (h_ltimers h) (h_rib h)
-                         end) -> exists q, In q (h_rib h) /\ r_fam q = r_fam r) as Hgen.
-  { intros g' outs H. destruct (start_llgr outs); cbn [h_rib upd_h] in H;
-      [apply in_mark_llgr in H; exact H | exists r; split; [assumption | reflexivity]]. }
-  destruct gr as [g|]; [|destruct ll as [l|]].
-  - destruct (gr_step (h_gr h) _) as [g' outs]. apply (Hgen g' outs). exact Hin.
-  - destruct (gr_step (h_gr h) _) as [g' outs]. apply (Hgen g' outs). exact Hin.
-  - cbn [h_rib upd_h] in Hin. exists r. split; [assumption | reflexivity].
+  intros h0' sf rib gr2 ll2 r grf llf Hin Hf.
+  assert (exists q, In q (rib_restale (rib_drop rib (filter (fun f => negb (mem f grf) && negb (mem f llf)) sf)) (grf ++ llf))
+                    /\ r_fam q = r_fam r) as [q [Hq Hfq]].
+  { unfold apply_disconnect in Hin. cbn [h_gr h_rib h_ltimers h_rtimer] in Hin.
+    destruct gr2 as [g2|]; [|destruct ll2 as [l2|]].
+    - destruct (gr_step (h_gr h0') _) as [g' outs]. destruct (start_llgr outs); cbn [h_rib upd_h] in Hin.
+      + apply in_mark_llgr in Hin. destruct Hin as [q [Hq [Hf' _]]]. exists q. split; [exact Hq | symmetry; exact Hf'].
+      + exists r. split; [exact Hin | reflexivity].
+    - destruct (gr_step (h_gr h0') _) as [g' outs]. destruct (start_llgr outs); cbn [h_rib upd_h] in Hin.
+      + apply in_mark_llgr in Hin. destruct Hin as [q [Hq [Hf' _]]]. exists q. split; [exact Hq | symmetry; exact Hf'].
+      + exists r. split; [exact Hin | reflexivity].
+    - cbn [h_rib upd_h] in Hin. exists r. split; [exact Hin | reflexivity]. }
+  apply in_restale in Hq. destruct Hq as [q' [Hq' [Hf' _]]]. apply in_drop in Hq'. destruct Hq' as [_ Hnd].
+  rewrite mem_filter in Hnd. rewrite <- Hf', Hfq, Hf in Hnd. cbn [andb] in Hnd.
+  destruct (mem (r_fam r) grf) eqn:E1; [left; reflexivity|].
+  destruct (mem (r_fam r) llf) eqn:E2; [right; reflexivity|]. discriminate.
 Qed.
 
 Theorem C10_non_negotiated_families_dropped_at_once :
@@ -218,115 +945,52 @@ Theorem C10_non_negotiated_families_dropped_at_once :
     mem (r_fam r) (s_fams s) = true ->
     mem (r_fam r) (fams_of_gr (s_gr s)) = true \/ mem (r_fam r) (fams_of_llgr (s_llgr s)) = true.
 Proof.
-  intros h s rs r Hs Hin Hf. cbn [h_step] in Hin. rewrite Hs in Hin.
-  apply apply_disconnect_fams in Hin. destruct Hin as [q [Hq Hfq]]. cbn [h_rib] in Hq.
-  apply in_restale in Hq. destruct Hq as [q' [Hq' Hfq']].
-  unfold rib_drop in Hq'. apply filter_In in Hq'. destruct Hq' as [_ Hn].
-  unfold in_fams in Hn. rewrite Hfq', Hfq in Hn.
-  apply negb_true_iff in Hn. apply mem_false_In in Hn.
-  destruct (mem (r_fam r) (fams_of_gr (s_gr s))) eqn:E1; [left; reflexivity|].
-  destruct (mem (r_fam r) (fams_of_llgr (s_llgr s))) eqn:E2; [right; reflexivity|].
-  exfalso. apply Hn. apply filter_In. split; [apply mem_In; assumption|].
-  unfold fams_of_gr, fams_of_llgr in E1, E2. rewrite E1, E2. reflexivity.
+  intros h s rs r Hs Hin Hf. cbn [h_step] in Hin. rewrite Hs in Hin. cbv zeta in Hin.
+  apply down_kept in Hin; [|exact Hf].
+  destruct (h_admin_down h); [destruct Hin; discriminate|].
+  destruct Hin as [Hin|Hin].
+  - left. destruct (s_gr s) as [[[l rt] nb]|]; [|discriminate]. destruct (gr_applies rs nb); [exact Hin | discriminate].
+  - right. destruct (s_llgr s) as [lp|].
+    + destruct (match s_gr s with Some (l, rt, nbit) => if gr_applies rs nbit then Some (l, rt) else None | None => None end);
+        [exact Hin | destruct rs; try discriminate; exact Hin].
+    + destruct (match s_gr s with Some (l, rt, nbit) => if gr_applies rs nbit then Some (l, rt) else None | None => None end);
+        [discriminate | destruct rs; discriminate].
 Qed.
 
-(* ------------------------------------------------------------ the open findings *)
-
-Definition w2 : list hevent :=
-  [HUp [V4] (Some ([V4], 120, true)) None; HAnnounce V4 0 false false; HDown RsRemoteHard].
-Definition w3 : list hevent :=
-  [HUp [V4; V6] (Some ([V4; V6], 120, false)) (Some [(V4, 3600); (V6, 3600)]); HAnnounce V6 0 false false;
-   HDown RsTcp; HRestartTimer; HUp [V4; V6] (Some ([V4], 120, false)) None].
-Definition w4 : list hevent :=
-  [HUp [V4; V6] (Some ([V4; V6], 120, false)) (Some [(V4, 3600)]); HAnnounce V6 0 false false; HDown RsTcp; HRestartTimer].
-Definition w5 : list hevent :=
-  [HUp [V4; V6] (Some ([V4], 120, false)) (Some [(V4, 3600); (V6, 3600)]); HAnnounce V6 0 false false; HDown RsTcp;
-   HUp [V4; V6] (Some ([V4], 120, false)) (Some [(V4, 3600); (V6, 3600)])].
-
-(* the full-strength invariant is false of the faithful model: one witness per open finding *)
-Theorem C10_stale_implies_timer_or_eor_refuted :
-  (Known_C10_2 w2 = true /\ stale_ok (h_run h0 w2) = false)
-  /\ (Known_C10_3 w3 = true /\ stale_ok (h_run h0 w3) = false)
-  /\ (Known_C10_4 w4 = true /\ stale_ok (h_run h0 w4) = false)
-  /\ (Known_C10_5 w5 = true /\ stale_ok (h_run h0 w5) = false).
-Proof. vm_compute. repeat split; reflexivity. Qed.
-
-(* a hard reset (finding C10-2) leaves the stale-marked routes in the table although helper mode is not entered *)
-Theorem C10_non_gr_reasons_retain_nothing_refuted :
-  exists evs, Known_C10_2 evs = true /\
-              let h := h_run h0 evs in
-              is_peer_restarting (h_gr h) = false /\ h_rtimer h = false /\ h_ltimers h = [] /\ h_rib h <> [].
-Proof. exists w2. vm_compute. repeat split; try reflexivity. discriminate. Qed.
-
-(* outside that class: a session that negotiated neither GR nor LLGR leaves nothing behind *)
-Theorem C10_non_gr_reasons_retain_nothing_outside_known :
-  forall (h : hstate) (s : session) (rs : reason) (r : route),
-    h_sess h = Some s -> s_gr s = None -> s_llgr s = None ->
-    In r (h_rib (h_step h (HDown rs))) -> mem (r_fam r) (s_fams s) = false.
+(* (f) a hard reset, an admin shutdown, a non-Cease error (and a NOTIFICATION or hold-timer
+       expiry without the N bit) never enters helper mode and retains nothing, in every
+       reachable state *)
+Theorem C10_non_gr_reasons_retain_nothing :
+  forall (evs : list hevent) (s : session) (rs : reason),
+    let h := h_run h0 evs in
+    h_sess h = Some s -> not_eligible h s rs = true ->
+    let h' := h_step h (HDown rs) in
+    h_rib h' = [] /\ h_rtimer h' = false /\ h_ltimers h' = [] /\ h_sess h' = None /\ h_gr h' = h_gr h.
 Proof.
-  intros h s rs r Hs Hg Hl Hin.
-  destruct (mem (r_fam r) (s_fams s)) eqn:E; [|reflexivity].
-  destruct (C10_non_negotiated_families_dropped_at_once h s rs r Hs Hin E) as [H|H];
-    [rewrite Hg in H | rewrite Hl in H]; discriminate.
+  intros evs s rs h Hs Hne h'.
+  pose proof (inv_run evs h0 inv_h0) as Hinv. fold h in Hinv.
+  pose proof (inv_down h rs Hinv) as Hinv'. fold h' in Hinv'.
+  (* nothing is negotiated as far as the disconnect handling is concerned *)
+  assert (h_gr h' = h_gr h /\ h_sess h' = None) as [Hg' Hs'].
+  { subst h'. cbn [h_step]. rewrite Hs. cbv zeta. unfold not_eligible in Hne.
+    destruct (h_admin_down h) eqn:Ea; [split; reflexivity|]. cbn [orb] in Hne.
+    destruct (s_gr s) as [[[l rt] nb]|].
+    - apply negb_true_iff in Hne. rewrite Hne. destruct rs; cbn in Hne; try discriminate; split; reflexivity.
+    - destruct rs; try discriminate; split; reflexivity. }
+  destruct Hinv as [Hgi Hp]. destruct (gi_sess h Hgi s Hs) as [_ [Hrt [Hlt _]]].
+  destruct Hinv' as [_ Hp']. unfold pinv in Hp, Hp'. rewrite Hg' in Hp'.
+  destruct (h_gr h) as [|stale llgr|rem|p fl] eqn:Eg.
+  - destruct Hp' as [A [B C]]. repeat split; try assumption.
+    destruct (h_rib h') as [|q rest]; [reflexivity|]. specialize (C q (or_introl eq_refl)).
+    rewrite (retained_no_session h' q Hs') in C. discriminate.
+  - destruct Hp as [Hn _]. congruence.
+  - destruct Hp as [Hn _]. congruence.
+  - destruct Hp' as [A [B C]]. repeat split; try assumption.
+    destruct (h_rib h') as [|q rest]; [reflexivity|].
+    destruct (C q (or_introl eq_refl) (retained_no_session h' q Hs')) as [_ [[s0 [Hs0 _]] _]]. congruence.
 Qed.
 
-(* ------------------------------------------------------------ bounded sweep
-   [partial] the invariant "stale routes only while a timer is armed or an
-   End-of-RIB is awaited", outside the known input classes, for every event
-   sequence of length <= 4 over the alphabet below (two families; GR-only,
-   GR+LLGR and plain sessions; every kind of event).  The unbounded statement
-   (all histories, all families) is not proved. *)
-Definition sweep_alphabet : list hevent :=
-  [HUp [V4; V6] (Some ([V4; V6], 120, true)) None;
-   HUp [V4; V6] (Some ([V4], 120, false)) (Some [(V4, 3600)]);
-   HUp [V4; V6] None None;
-   HUp [V4] None (Some [(V4, 3600)]);
-   HAnnounce V4 0 false false; HAnnounce V4 1 true false; HAnnounce V6 0 false false;
-   HEor V4; HEor V6;
-   HDown RsTcp; HDown RsRemoteCease; HDown RsRemoteHard; HDown RsOther;
-   HFailedConnect; HRestartTimer; HLlgrTimer V4; HLlgrTimer V6; HForceDown; HSetAdminDown true].
-
-Fixpoint all_seqs (al : list hevent) (n : nat) : list (list hevent) :=
-  match n with
-  | O => [[]]
-  | S k => flat_map (fun e => map (cons e) (all_seqs al k)) al
-  end.
-
-Definition sweep_ok (al : list hevent) (n : nat) : bool :=
-  forallb (fun evs => known_any evs || stale_ok_along h0 evs) (all_seqs al n).
-
-Lemma all_seqs_complete : forall al n evs,
-    length evs = n -> Forall (fun e => In e al) evs -> In evs (all_seqs al n).
-Proof.
-  intros al n. induction n as [|k IH]; intros evs Hl Hf.
-  - destruct evs; [left; reflexivity | discriminate].
-  - destruct evs as [|e r]; [discriminate|]. cbn [all_seqs]. apply in_flat_map.
-    inversion Hf; subst. exists e. split; [assumption|]. apply in_map. apply IH; [cbn in Hl; lia | assumption].
-Qed.
-
-Lemma sweep_4 : sweep_ok sweep_alphabet 4 = true.
-Proof. vm_compute. reflexivity. Qed.
-
-Theorem C10_stale_implies_timer_or_eor_partial :
-  forall (evs : list hevent),
-    length evs = 4%nat -> Forall (fun e => In e sweep_alphabet) evs ->
-    known_any evs = false ->
-    stale_ok_along h0 evs = true.
-Proof.
-  intros evs Hl Hf Hk. pose proof sweep_4 as H. unfold sweep_ok in H. rewrite forallb_forall in H.
-  specialize (H evs (all_seqs_complete _ _ _ Hl Hf)). rewrite Hk in H. exact H.
-Qed.
-
-Example sweep_nonvacuous :
-  let evs := [HUp [V4; V6] (Some ([V4], 120, false)) (Some [(V4, 3600)]); HAnnounce V4 0 false false; HDown RsTcp; HRestartTimer] in
-  known_any evs = false /\ Forall (fun e => In e sweep_alphabet) evs
-  /\ h_ltimers (h_run h0 evs) = [V4] /\ length (h_rib (h_run h0 evs)) = 1%nat.
-Proof.
-  cbv zeta. split; [vm_compute; reflexivity|]. split; [|vm_compute; split; reflexivity].
-  repeat constructor; cbn; tauto.
-Qed.
-
-(* ------------------------------------------------------------ non-vacuity of the one-step statements *)
+(* ------------------------------------------------------------ non-vacuity *)
 Definition ex_gr_llgr : list hevent :=
   [HUp [V4; V6] (Some ([V4; V6], 120, false)) (Some [(V4, 3600); (V6, 3600)]);
    HAnnounce V4 0 false false; HAnnounce V4 1 true false; HAnnounce V6 0 false false; HDown RsTcp].
@@ -341,19 +1005,40 @@ Example ex_restarting_with_timer :
 Proof. vm_compute. repeat split; reflexivity. Qed.
 
 Example ex_eor_purges_only_stale :
-  let h := h_run h0 (ex_gr_llgr ++ [HUp [V4; V6] (Some ([V4; V6], 120, false)) None; HAnnounce V4 2 false false]) in
+  let evs := ex_gr_llgr ++ [HUp [V4; V6] (Some ([V4; V6], 120, false)) None; HAnnounce V4 2 false true] in
+  let h := h_run h0 evs in
   h_gr h = GPeerReconnected [V4; V6] false /\ length (h_rib h) = 4%nat
   /\ map r_id (h_rib (h_step h (HEor V4))) = [0; 2] /\ map r_fam (h_rib (h_step h (HEor V4))) = [V6; V4]
   /\ stale_ok h = true /\ stale_ok (h_step h (HEor V4)) = true.
 Proof. vm_compute. repeat split; reflexivity. Qed.
 
-Example ex_plain_session_leaves_nothing :
-  let h := h_run h0 [HUp [V4; V6] None None; HAnnounce V4 0 false false; HAnnounce V6 1 false false] in
-  length (h_rib h) = 2%nat /\ h_rib (h_step h (HDown RsRemoteHard)) = [] /\ h_rib (h_step h (HDown RsTcp)) = [].
+Example ex_hard_reset_retains_nothing :
+  let evs := [HUp [V4; V6] (Some ([V4], 120, true)) (Some [(V4, 3600)]); HAnnounce V4 0 false false; HAnnounce V6 1 false false] in
+  let h := h_run h0 evs in
+  length (h_rib h) = 2%nat
+  /\ (exists s, h_sess h = Some s /\ not_eligible h s RsRemoteHard = true /\ not_eligible h s RsTcp = false)
+  /\ h_rib (h_step h (HDown RsRemoteHard)) = [] /\ length (h_rib (h_step h (HDown RsTcp))) = 1%nat.
+Proof. vm_compute. repeat split; try reflexivity. eexists. repeat split; reflexivity. Qed.
+
+Example ex_gr_family_without_llgr_expires :
+  let evs := [HUp [V4; V6] (Some ([V4; V6], 120, false)) (Some [(V4, 3600)]); HAnnounce V6 0 false false;
+              HAnnounce V4 0 false false; HDown RsTcp; HRestartTimer] in
+  let h := h_run h0 evs in
+  h_gr h = GLlgrStaling [V4] /\ map r_fam (h_rib h) = [V4] /\ h_ltimers h = [V4].
 Proof. vm_compute. repeat split; reflexivity. Qed.
 
 Example ex_helper_entry :
   is_peer_restarting (fst (gr_step GIdle (GSessionDropped (Some ([V4], 120)) None))) = true
   /\ is_peer_restarting (fst (gr_step GIdle (GSessionDropped None (Some [(V4, 3600)])))) = true
   /\ is_peer_restarting (fst (gr_step GIdle (GSessionDropped None None))) = false.
+Proof. vm_compute. repeat split; reflexivity. Qed.
+
+(* finding C10-7 (repaired): GR negotiated for a family outside the session is dropped from
+   the negotiated set, the earlier session's stale routes of that family are purged when the
+   peer comes back, and a later hard reset leaves nothing *)
+Example ex_gr_family_outside_session :
+  let evs := [HUp [V4; V6] (Some ([V4; V6], 120, true)) None; HAnnounce V6 0 false false; HDown RsTcp;
+              HUp [V4] (Some ([V4; V6], 120, true)) None] in
+  let h := h_run h0 evs in
+  h_gr h = GPeerReconnected [V4] false /\ h_rib h = [] /\ h_rib (h_step h (HDown RsRemoteHard)) = [].
 Proof. vm_compute. repeat split; reflexivity. Qed.
